@@ -7,6 +7,7 @@ package mocker
 // of patches[target], and whether a subsequent correct mock of the same target still works and restores.
 
 import (
+	"bytes"
 	"debug/elf"
 	"errors"
 	"fmt"
@@ -23,6 +24,7 @@ import (
 	"github.com/tencent/goom/erro"
 	"github.com/tencent/goom/internal/iface"
 	"github.com/tencent/goom/internal/patch"
+	altmocker "github.com/tencent/goom/internal/zzverif/alt/mocker"
 	"github.com/tencent/goom/internal/zzverif/vh"
 )
 
@@ -35,6 +37,15 @@ type ZS16b struct {
 	B uint64
 }
 type ZS24 struct{ A, B, C int64 }
+// ZDup (16 bytes) shares its printed name "mocker.ZDup" with a function-local shadow (zlocalDup) and with altmocker.ZDup.
+type ZDup struct{ A, B int64 }
+
+// zlocalDup returns the function-local type that shadows ZDup: same String(), 4 bytes.
+func zlocalDup() ztype {
+	type ZDup struct{ A int32 }
+	return ztype{reflect.TypeOf(ZDup{}), ZDup{1}, ZDup{7}}
+}
+
 type ZErr struct{ M string }
 
 func (e *ZErr) Error() string { return e.M }
@@ -91,6 +102,9 @@ var ztypes = map[string]ztype{
 	"map":  {reflect.TypeOf(map[string]int(nil)), zMapO, zMapS},
 	"ch":   {reflect.TypeOf((chan int)(nil)), zChO, zChS},
 	"ictx": {reflect.TypeOf((*IContext)(nil)), &IContext{}, &IContext{}},
+	"dup":  {reflect.TypeOf(ZDup{}), ZDup{1001, 1}, ZDup{7, 7}},
+	"dupl": zlocalDup(),
+	"dupp": {reflect.TypeOf(altmocker.ZDup{}), altmocker.ZDup{A: 1}, altmocker.ZDup{A: 7}},
 }
 
 // zo returns the "original" value for a result slot; the generated targets call it.
@@ -181,6 +195,9 @@ func zsnap() []byte { return append([]byte(nil), ztext...) }
 // zdiff classifies the bytes that differ from snap: "none", or a '+'-joined subset of tgt (first 13 bytes of the
 // target), tramp (inside the origin placeholder), other.
 func zdiff(snap []byte, tgt, tramp uintptr) string {
+	if bytes.Equal(snap, ztext) { // the common case, at memcmp speed
+		return "none"
+	}
 	base := uintptr(unsafe.Pointer(&ztext[0]))
 	var inT, inTr, other bool
 	for i := range snap {
